@@ -19,9 +19,26 @@ Theorem C15_inv : forall hist s k tt,
   Forall op_i64 hist -> run hist = Some s -> find_table s k = Some tt -> tablets_inv (tt_list tt).
 Proof. exact run_tablets_inv. Qed.
 
-(* ... hence after every step of every history: each prefix is a history *)
-Theorem C15_every_step : forall h1 h2 s, run (h1 ++ h2) = Some s -> exists s1, run h1 = Some s1.
-Proof. exact run_prefix. Qed.
+(* ... and after EVERY STEP of every history: each prefix ran, its tables satisfy the invariant and its
+   lookups are the specification of the prefix (the whole history ran too: nothing panics) *)
+Theorem C15_every_step : forall h1 h2,
+  Forall op_i64 (h1 ++ h2) ->
+  exists s1 s, run h1 = Some s1 /\ run (h1 ++ h2) = Some s /\
+    (forall k tt, find_table s1 k = Some tt -> tablets_inv (tt_list tt)) /\
+    (forall k tok, lookup s1 k tok = spec_lookup h1 k tok).
+Proof. exact run_every_prefix. Qed.
+
+(* the invariant is EXACT: the range lists a table can hold after some history are precisely the sorted,
+   pairwise disjoint lists of non-empty ranges inside i64 that do not start at i64::MIN (first = a + 1) *)
+Theorem C15_reachable_iff : forall k rs,
+  (exists hist s, Forall op_i64 hist /\ run hist = Some s /\
+                  map range_of (tt_list (or_empty (find_table s k))) = rs) <->
+  (ranges_okb rs = true /\ Forall (fun r => i64_min < fst r) rs).
+Proof. exact reachable_iff. Qed.
+
+(* the boolean check the driver applies to the implementation's range lists IS the invariant *)
+Theorem C15_ranges_okb_iff : forall l, ranges_okb (map range_of l) = true <-> tablets_inv l.
+Proof. exact ranges_okb_iff. Qed.
 
 (* the slices the three partition_point calls run on are partitioned by their predicates at the
    index the model uses, and that index is the only one (the contract of slice::partition_point) *)
@@ -91,6 +108,18 @@ Theorem C15_never_learnt : forall hist k tok s,
   Forall op_i64 hist -> run hist = Some s ->
   forallb (fun o => negb (covering_learn k tok o)) hist = true -> lookup s k tok = None.
 Proof. exact never_learnt. Qed.
+
+(* the declarative reading as an EQUIVALENCE: a token is answered with [reps] if and only if the history
+   splits at an accepted payload covering the token that no later accepted payload of the table overlaps,
+   and [reps] are its replicas after the later maintenance events *)
+Theorem C15_answered_iff : forall hist s k tok reps,
+  Forall op_i64 hist -> run hist = Some s ->
+  (lookup s k tok = Some reps <->
+   exists pre a b raw known post,
+     hist = pre ++ Learn k a b raw known :: post /\ spec_payload_ok a b raw = true /\ a < tok <= b /\
+     forallb (fun o => negb (accepted_overlap k (a + 1) b o)) post = true /\
+     option_map e_reps (spec_maintain_all k post (spec_entry_of a b raw known)) = Some reps).
+Proof. exact answered_iff. Qed.
 
 (* after a maintenance call no answering tablet has unknown replicas, a replica on a removed node
    or the stale object of a recreated node, and its table is a table/view of a tablet keyspace *)
@@ -176,7 +205,7 @@ Proof. exact run_b_lookup. Qed.
    tuple<bigint,bigint,list<tuple<uuid,int>>>, hosts below 2^128, shards i32) are decoded to exactly the outcome of
    the value-level check of (a, b, raw) -- accepted tablet, WrongTokenRange or ShardNum, never Deserialization *)
 Theorem C15_payload_roundtrip : forall a b raw,
-  i64_ok a -> i64_ok b -> raw_wf raw -> (N.of_nat (List.length raw) <= 60000000)%N ->
+  i64_ok a -> i64_ok b -> raw_wf raw -> (N.of_nat (List.length raw) <= 67108863)%N ->
   parse_payload (enc_payload a b raw) =
   match payload_check a b raw with
   | Ok (f, l, r) => P_Ok f l r
@@ -187,7 +216,7 @@ Proof. exact parse_enc_payload. Qed.
 
 (* ... so the value-level event Learn k a b raw known IS the byte payload of its encoding *)
 Theorem C15_learn_is_bytes : forall s k a b raw known,
-  i64_ok a -> i64_ok b -> raw_wf raw -> (N.of_nat (List.length raw) <= 60000000)%N ->
+  i64_ok a -> i64_ok b -> raw_wf raw -> (N.of_nat (List.length raw) <= 67108863)%N ->
   step_bytes s k (enc_payload a b raw) known = step s (Learn k a b raw known).
 Proof. exact step_bytes_enc. Qed.
 
@@ -314,6 +343,20 @@ Example C15_ex_bytes :
   parse_payload (framed (enc_signed 8 5) ++ framed (enc_signed 8 9) ++ framed (enc_signed 4 (2 ^ 31 - 1))) = P_Deser DE_RawCqlBytesRead /\
   parse_payload (framed (enc_signed 8 5) ++ framed (enc_signed 8 9) ++ framed (enc_signed 4 (-1))) = P_Deser DE_LengthDeser.
 Proof. repeat split; vm_compute; reflexivity. Qed.
+Example C15_ex_reachable :
+  (* reachable: touching tablets up to i64::MAX; not reachable: a tablet starting at i64::MIN, overlapping,
+     unsorted, empty *)
+  (ranges_okb [(- 2 ^ 63 + 1, 0); (1, 1); (2, 2 ^ 63 - 1)] = true /\
+   Forall (fun r => i64_min < fst r) [(- 2 ^ 63 + 1, 0); (1, 1); (2, 2 ^ 63 - 1)]) /\
+  ~ Forall (fun r => i64_min < fst r) [(- 2 ^ 63, 0)] /\
+  ranges_okb [(0, 5); (5, 9)] = false /\ ranges_okb [(3, 4); (0, 1)] = false /\ ranges_okb [(2, 1)] = false /\
+  range_of (mkTablet 3 9 (mkReps [] []) None) = (3, 9) /\
+  map (learn_range (1, 1)%N) [(1, 5)] = [Learn (1, 1)%N 0 5 [] []].
+Proof.
+  split; [split; [vm_compute; reflexivity|repeat constructor; vm_compute; reflexivity]|].
+  split; [intros H; inversion H as [|? ? H1 _]; vm_compute in H1; discriminate|].
+  repeat split; vm_compute; reflexivity.
+Qed.
 Example C15_ex_raw_wf :
   raw_wf [(7%N, 3); ((2 ^ 128 - 1)%N, - 2 ^ 31); (0%N, 2 ^ 31 - 1)] /\
   ~ raw_wf [((2 ^ 128)%N, 0)] /\ ~ raw_wf [(7%N, 2 ^ 31)] /\ ~ raw_wf [(7%N, - 2 ^ 31 - 1)].
@@ -436,6 +479,9 @@ Proof. repeat split; vm_compute; reflexivity. Qed.
 Print Assumptions C15_no_panic.
 Print Assumptions C15_inv.
 Print Assumptions C15_every_step.
+Print Assumptions C15_reachable_iff.
+Print Assumptions C15_ranges_okb_iff.
+Print Assumptions C15_answered_iff.
 Print Assumptions C15_partitioned.
 Print Assumptions C15_partition_point_unique.
 Print Assumptions C15_lookup.
